@@ -7,6 +7,7 @@ package storage
 import (
 	"crypto/sha256"
 	"fmt"
+	"math"
 	"os"
 	"path"
 	"time"
@@ -101,19 +102,28 @@ func (bp BundlePart) Load() (b bpv7.Bundle, err error) {
 
 // calcExpirationDate for a Bundle.
 func calcExpirationDate(b bpv7.Bundle) time.Time {
-	lifetime := time.Duration(b.PrimaryBlock.Lifetime) * time.Millisecond
+	lifetime := millisecondsToDuration(b.PrimaryBlock.Lifetime)
 
 	// A zero creation time is not a date, the source had no clock. The remaining lifetime is then the lifetime
 	// minus the age carried in the Bundle Age Block, compare Bundle.IsLifetimeExceeded.
 	if b.PrimaryBlock.CreationTimestamp.IsZeroTime() {
 		var age time.Duration
 		if ageBlock, err := b.ExtensionBlock(bpv7.ExtBlockTypeBundleAgeBlock); err == nil {
-			age = time.Duration(ageBlock.Value.(*bpv7.BundleAgeBlock).Age()) * time.Millisecond
+			age = millisecondsToDuration(ageBlock.Value.(*bpv7.BundleAgeBlock).Age())
 		}
 		return time.Now().Add(lifetime - age)
 	}
 
 	return b.PrimaryBlock.CreationTimestamp.DtnTime().Time().Add(lifetime)
+}
+
+// millisecondsToDuration converts a number of milliseconds to a Duration. A number beyond a Duration's range, about 292
+// years, results in the greatest Duration instead of an arbitrary, perhaps negative one.
+func millisecondsToDuration(ms uint64) time.Duration {
+	if ms > uint64(math.MaxInt64/int64(time.Millisecond)) {
+		return time.Duration(math.MaxInt64)
+	}
+	return time.Duration(ms) * time.Millisecond
 }
 
 // bundlePartPath returns a path for a Bundle or, together with its payload's length, for a fragment.
